@@ -11,6 +11,7 @@ import (
 	"encoding/json"
 	"os"
 	"strings"
+	"sync"
 	"testing"
 	"testing/synctest"
 	"time"
@@ -18,8 +19,12 @@ import (
 	"github.com/emersion/go-message/textproto"
 	"github.com/emersion/go-smtp"
 	"github.com/foxcpp/maddy/framework/buffer"
+	"github.com/foxcpp/maddy/framework/config"
 	"github.com/foxcpp/maddy/framework/log"
 	"github.com/foxcpp/maddy/framework/module"
+	_ "github.com/foxcpp/maddy/internal/modify"
+	"github.com/foxcpp/maddy/internal/msgpipeline"
+	_ "github.com/foxcpp/maddy/internal/table"
 	"github.com/foxcpp/maddy/internal/target/queue"
 	"github.com/foxcpp/maddy/verifharness/scripted"
 	"github.com/foxcpp/maddy/verifharness/vtrace"
@@ -42,6 +47,10 @@ type Cfg struct {
 	RestartFirst bool `json:"restartFirst"`
 	// CaseVar: the recipients differ only by the letter case of the local part
 	CaseVar bool `json:"caseVar"`
+	// Front: "" = the harness puts the message into the queue itself and fills OriginalRcpts for the rewritten
+	// recipients; "global" | "source" | "dest" = the message comes through a real msgpipeline whose replace_rcpt
+	// modifier in that scope does the rewriting (the pipeline then owns the original-recipient map)
+	Front string `json:"front"`
 	// MidData (variant (b)): 8 MiB body, a scripted unclassified body failure resets the connection mid-transfer
 	MidData bool `json:"midData"`
 	// UniLocal: non-ASCII local parts (only with Utf8)
@@ -197,6 +206,63 @@ func reportID(a string) string {
 	return unlocal(a)
 }
 
+// ---- a real msgpipeline in front of the queue (Cfg.Front) ----
+var (
+	frontMu   sync.Mutex
+	frontTgt  module.DeliveryTarget
+	frontOnce sync.Once
+)
+
+type frontProxy struct{ inst string }
+
+func (p *frontProxy) Name() string               { return "verifq" }
+func (p *frontProxy) InstanceName() string       { return p.inst }
+func (p *frontProxy) Init(cfg *config.Map) error { return nil }
+func (p *frontProxy) Start(ctx context.Context, m *module.MsgMetadata, from string) (module.Delivery, error) {
+	frontMu.Lock()
+	t := frontTgt
+	frontMu.Unlock()
+	return t.Start(ctx, m, from)
+}
+
+func frontPipeline(t *testing.T, q module.DeliveryTarget, scope string, rw map[string]bool) module.DeliveryTarget {
+	frontOnce.Do(func() {
+		module.Register("target.verifq", func(_, inst string, _, _ []string) (module.Module, error) {
+			return &frontProxy{inst: inst}, nil
+		})
+	})
+	frontMu.Lock()
+	frontTgt = q
+	frontMu.Unlock()
+	var entries []config.Node
+	for _, r := range []string{"r1", "r2", "r3"} {
+		if rw[r] {
+			entries = append(entries, config.Node{Name: "entry", Args: []string{addr(r), effAddr(r)}})
+		}
+	}
+	mod := config.Node{Name: "modify", Children: []config.Node{
+		{Name: "replace_rcpt", Args: []string{"static"}, Children: entries}}}
+	deliver := config.Node{Name: "deliver_to", Args: []string{"verifq", "Q"}}
+	var nodes []config.Node
+	switch scope {
+	case "global":
+		nodes = []config.Node{mod, {Name: "default_source", Children: []config.Node{
+			{Name: "default_destination", Children: []config.Node{deliver}}}}}
+	case "source":
+		nodes = []config.Node{{Name: "default_source", Children: []config.Node{mod,
+			{Name: "default_destination", Children: []config.Node{deliver}}}}}
+	default:
+		nodes = []config.Node{{Name: "default_source", Children: []config.Node{
+			{Name: "default_destination", Children: []config.Node{mod, deliver}}}}}
+	}
+	p, err := msgpipeline.New(map[string]interface{}{"hostname": "mx.example.org"}, nodes)
+	if err != nil {
+		t.Fatalf("front pipeline: %v", err)
+	}
+	p.Log = log.Logger{Out: log.NopOutput{}}
+	return p
+}
+
 const retryDelay = time.Minute
 
 func spoolFiles(dir string) []string {
@@ -283,7 +349,16 @@ func runBehaviour(t *testing.T, b Behaviour, w *bufio.Writer) {
 		ctx := context.Background()
 		meta := &module.MsgMetadata{ID: "msg" + itoa(b.ID), OriginalFrom: from,
 			SMTPOpts: smtp.MailOptions{UTF8: b.Cfg.Utf8}, OriginalRcpts: map[string]string{}}
-		d, err := q.Start(ctx, meta, from)
+		var entry module.DeliveryTarget = q
+		front := b.Cfg.Front
+		if len(rw) == 0 || b.Cfg.NullSender {
+			front = ""
+		}
+		if front != "" {
+			entry = frontPipeline(t, q, front, rw)
+			meta.OriginalRcpts = nil
+		}
+		d, err := entry.Start(ctx, meta, from)
 		if err != nil {
 			t.Fatal(err)
 		}
@@ -291,7 +366,7 @@ func runBehaviour(t *testing.T, b Behaviour, w *bufio.Writer) {
 		distinct := []string{}
 		for _, r := range b.Cfg.List {
 			a := addr(r)
-			if rw[r] {
+			if rw[r] && front == "" {
 				a = effAddr(r)
 				meta.OriginalRcpts[a] = addr(r)
 			}
